@@ -173,6 +173,9 @@ func init() {
 			if k := i - ctx.N(18, 120) - 26; k >= 0 && k < 22 {
 				return ignoredKeywordCase(k)
 			}
+			if k := i - ctx.N(18, 120) - 48; k >= 0 && k < 16 {
+				return sharedOutputCase(k)
+			}
 			return nil
 		},
 		args: func(r *sg.Rng, root *sg.Schema) []string {
@@ -362,6 +365,9 @@ func init() {
 			}
 			if i < 155 {
 				return typeListEnumCase(i - 149)
+			}
+			if i < 227 {
+				return enumTripleCase(i - 155)
 			}
 			return nil
 		},
@@ -2133,6 +2139,14 @@ func strataForC01(ctx *Ctx) []*sem.Case {
 	add(8, anyOfOverlapCase)
 	add(8, bothDefsKeywordsCase)
 	add(6, untypedDefaultCase)
+	add(16, sharedOutputCase)
+	add(3*nearTwinVariants, nearTwinCase)
+	add(72, emptyIntervalCase)
+	add(12, propertyCountCase)
+	add(54, intFormatCase)
+	add(36, definitionCycleCase)
+	add(72, enumTripleCase)
+	add(96, siblingCollisionSetCase)
 	add(12, func(i int) *sem.Case { return sameRefTextTwinCase(ctx, i, rng("twin", i), 12) })
 	add(8, func(i int) *sem.Case { return crossBranchCase(i, rng("cross", i)) })
 	add(24, func(i int) *sem.Case { return sharedNodeCase(i, rng("shared", i)) })
